@@ -119,6 +119,58 @@ func mutations() []mutation {
 			}
 			return false
 		}),
+		body("swap-inbound-etxs", func(wo *types.WorkObject) bool {
+			txs := append(types.Transactions{}, wo.Transactions()...)
+			for i := 0; i+1 < len(txs); i++ {
+				if txs[i].Type() == types.ExternalTxType && txs[i+1].Type() == types.ExternalTxType && txs[i].Hash() != txs[i+1].Hash() {
+					txs[i], txs[i+1] = txs[i+1], txs[i]
+					wo.Body().SetTransactions(txs)
+					return true
+				}
+			}
+			return false
+		}),
+		body("drop-all-inbound-etxs", func(wo *types.WorkObject) bool {
+			var out types.Transactions
+			n := 0
+			for _, t := range wo.Transactions() {
+				if t.Type() == types.ExternalTxType {
+					n++
+					continue
+				}
+				out = append(out, t)
+			}
+			if n == 0 {
+				return false
+			}
+			wo.Body().SetTransactions(out)
+			return true
+		}),
+		body("drop-first-inbound-etx", func(wo *types.WorkObject) bool {
+			txs := wo.Transactions()
+			i := firstOfType(txs, types.ExternalTxType)
+			if i < 0 {
+				return false
+			}
+			wo.Body().SetTransactions(append(append(types.Transactions{}, txs[:i]...), txs[i+1:]...))
+			return true
+		}),
+		body("alter-inbound-etx-value", func(wo *types.WorkObject) bool {
+			txs := append(types.Transactions{}, wo.Transactions()...)
+			i := firstOfType(txs, types.ExternalTxType)
+			if i < 0 {
+				return false
+			}
+			x, ok := txs[i].Inner().(*types.ExternalTx)
+			if !ok {
+				return false
+			}
+			cp := *x
+			cp.Value = new(big.Int).Add(x.Value, big.NewInt(1))
+			txs[i] = types.NewTx(&cp)
+			wo.Body().SetTransactions(txs)
+			return true
+		}),
 		body("unknown-inbound-etx", func(wo *types.WorkObject) bool {
 			to := mininet.QuaiAddr(0x55)
 			etx := types.NewTx(&types.ExternalTx{To: &to, Gas: 21000, Value: big.NewInt(12345), EtxType: types.DefaultType,
@@ -230,6 +282,15 @@ func cmdTamper(args []string) {
 	applied := 0
 	ms := mutations()
 	for b := 0; b < *nblocks; b++ {
+		if b%2 == 1 {
+			// let the dominant chains confirm the ETXs emitted so far, so that the next zone block has inbound
+			// ETXs to execute (coinbases of several blocks, conversions)
+			for _, ord := range []int{mininet.Region, mininet.Prime} {
+				if _, err := r.MineOn(r.Blocks2Head(), ord); err != nil {
+					fatal(3, "confirming block:", err)
+				}
+			}
+		}
 		parentID := r.Blocks2Head()
 		r.RandomContent(5)
 		// the honest block is appended first (its effects are learnt from database scans), then rolled back, the
